@@ -10,7 +10,7 @@ from xf import AnchorLost
 
 HDR = ("use vstd::prelude::*;\n#[allow(unused_imports)]\nuse crate::vx::*;\n"
        "#[allow(unused_imports)]\nuse crate::dns::wire_format::*;\n#[allow(unused_imports)]\nuse vstd::std_specs::iter::IteratorSpec;\n"
-       "#[allow(unused_imports)]\nuse crate::dns::*;\n#[allow(unused_imports)]\nuse crate::dns::rdata::*;\n"
+       "#[allow(unused_imports)]\nuse crate::dns::*;\n#[allow(unused_imports)]\nuse crate::dns::rdata::*;\n#[allow(unused_imports)]\nuse crate::dns::header::*;\n"
        "verus!{ broadcast use crate::vx::vx_axioms; }\n")
 
 RDATA_FILES = ['a', 'aaaa', 'afsdb', 'caa', 'cert', 'dhcid', 'dnskey', 'ds', 'eui', 'hinfo', 'ipseckey', 'isdn',
@@ -122,5 +122,5 @@ def apply(c):
     c.wrap('dns/rdata/mod.rs', "pub(crate) trait RR {")
     c.rules('dns/rdata/macros.rs')
     for rel in ['dns/question.rs', 'dns/resource_record.rs', 'dns/packet.rs', 'dns/header.rs']:
-        add_header(c, rel)
+        add_header(c, rel, HDR.replace("#[allow(unused_imports)]\nuse crate::dns::header::*;\n", "") if rel == 'dns/header.rs' else HDR)
         c.rules(rel)
